@@ -4,6 +4,7 @@ import MysticVerif.Basic.Proto
 import MysticVerif.Model.Dsl
 import MysticVerif.Model.Measures
 import MysticVerif.Model.Trimmed
+import MysticVerif.Model.MeasuresX
 
 namespace MysticVerif.DrvC18
 open MysticVerif MysticVerif.Meas MysticVerif.Dsl
@@ -74,6 +75,33 @@ def kBadPercent (klo khi : Float) : Bool := klo + khi > 100.0 || klo < 0.0 || kh
 /-- `_k` raises `IndexError` for the sorted weights of this sample -/
 def trimRaises (xs : List Float) (ws : Option (List Float)) (klo khi : Float) (clip : Bool) : Bool :=
   kRaises TF ((sortedOf xs ws).map (·.2)) klo khi clip
+
+
+/-- `skew=None|True|False` -/
+def optBool? (v : Val) : Option (Option Bool) :=
+  match v with
+  | .sym "none" => some none
+  | _ => v.asBool?.map some
+
+/-- an ndarray from its shape and its values in row-major order -/
+def flatIndex (shape ix : List Nat) : Nat := (List.zip shape ix).foldl (fun acc p => acc * p.1 + p.2) 0
+def ofFlat (shape : List Nat) (data : List Float) : NArr Float := ⟨shape, fun ix => data.getD (flatIndex shape ix) 0.0⟩
+
+def parseArr (args : List Val) (ks kd : String) : Option (NArr Float) := do
+  let sh ← (kw? args ks).bind Val.asNats?
+  let d ← (kw? args kd).bind Val.asFloats?
+  if sh.foldl (· * ·) 1 != d.length then none else some (ofFlat sh d)
+
+def showDRes : DRes Float → String
+  | .ok a => s!"ok shape={pNs a.shape} d={pFs a.ravel}"
+  | .errValue => "err value"
+  | .errAxis => "err index"
+  | .errZeroDiv => "err zerodiv"
+
+def optAxis? (v : Val) : Option (Option Int) :=
+  match v with
+  | .sym "none" => some none
+  | _ => v.asInt?.map some
 
 def handle : Handler
   | .sym "mean" :: args => Id.run do
@@ -202,6 +230,67 @@ def handle : Handler
     else
       let some r := (x.map fun a => (y.map fun b => distOf kind p a b).mapM id).mapM id | return "err value"
       return s!"ok d={pFss r}"
+  | .sym "stat2" :: args => Id.run do
+    let some kind := (kw? args "kind").bind Val.asSym? | return "bad-op"
+    let some xs := (kw? args "xs").bind Val.asFloats? | return "bad-op"
+    let some ws := (kw? args "ws").bind optFloats? | return "bad-op"
+    let some tol := (kw? args "tol").bind Val.asFloat? | return "bad-op"
+    let some order := (kw? args "order").bind Val.asNat? | return "bad-op"
+    match kind with
+    | "standard_moment" =>
+      if order != 2 && ws.isNone && xs.isEmpty then return "err zerodiv"
+      return s!"ok v={pF (standardMoment CF xs ws order tol)}"
+    | "skewness" => if ws.isNone && xs.isEmpty then return "err zerodiv" else return s!"ok v={pF (skewness CF xs ws)}"
+    | "kurtosis" => if ws.isNone && xs.isEmpty then return "err zerodiv" else return s!"ok v={pF (kurtosis CF xs ws)}"
+    | _ => return "bad-op"
+  | .sym "expected2" :: args => Id.run do
+    let some e := (kw? args "f").bind parseExpr | return "bad-op"
+    let some pts := (kw? args "pts").bind parsePts | return "bad-op"
+    let some ws := (kw? args "ws").bind optFloats? | return "bad-op"
+    let some tol := (kw? args "tol").bind Val.asFloat? | return "bad-op"
+    if ws.isNone && pts.isEmpty then return "err zerodiv"
+    return s!"ok v={pF (expectedVariance CF (evalF e) pts ws tol)} sd={pF (expectedStd CF (evalF e) pts ws tol)}"
+  | .sym "impose_moment" :: args => Id.run do
+    let some t := (kw? args "t").bind Val.asFloat? | return "bad-op"
+    let some xs := (kw? args "xs").bind Val.asFloats? | return "bad-op"
+    let some ws := (kw? args "ws").bind optFloats? | return "bad-op"
+    let some tol := (kw? args "tol").bind Val.asFloat? | return "bad-op"
+    let some order := (kw? args "order").bind Val.asNat? | return "bad-op"
+    let some skew := (kw? args "skew").bind optBool? | return "bad-op"
+    if order ≥ 2 && !(order % 2 == 0 && t < 0.0) && ws.isNone && xs.isEmpty then return "err zerodiv"
+    return s!"ok y={pFs (imposeMoment CF t xs ws order tol skew)}"
+  | .sym "impose_product" :: args => Id.run do
+    let some mass := (kw? args "mass").bind Val.asFloat? | return "bad-op"
+    let some ws := (kw? args "ws").bind Val.asFloats? | return "bad-op"
+    let some zsum := (kw? args "zsum").bind Val.asBool? | return "bad-op"
+    let some zmass := (kw? args "zmass").bind Val.asFloat? | return "bad-op"
+    if truthy (lprod ws) then
+      if truthy mass then
+        if ws.isEmpty then return "err zerodiv"
+      else if zsum then
+        if ws.isEmpty then return "err index"
+        if ws.length == 1 then return "err zerodiv"
+    return s!"ok w={pFs (imposeProduct CF mass ws zsum zmass)}"
+  | .sym "dista" :: args => Id.run do
+    let some kind := (kw? args "kind").bind Val.asSym? | return "bad-op"
+    let some x := parseArr args "xshape" "x" | return "bad-op"
+    let some y := parseArr args "yshape" "y" | return "bad-op"
+    let some pair := (kw? args "pair").bind Val.asBool? | return "bad-op"
+    let some dmin := (kw? args "dmin").bind Val.asNat? | return "bad-op"
+    let some axis := (kw? args "axis").bind optAxis? | return "bad-op"
+    let pinf := match kw? args "p" with
+      | some (.sym "inf") => true
+      | _ => false
+    let p := ((kw? args "p").bind Val.asNat?).getD 0
+    match kind with
+    | "chebyshev" => return showDRes (chebyshevA x y pair dmin axis)
+    | "hamming" => return showDRes (hammingA x y pair dmin axis)
+    | "manhattan" => return showDRes (minkowskiA CF Float.isFinite x y pair dmin 1 axis)
+    | "euclidean" => return showDRes (minkowskiA CF Float.isFinite x y pair dmin 2 axis)
+    | "minkowski" =>
+      if pinf then return showDRes (chebyshevA x y pair dmin axis)
+      else return showDRes (minkowskiA CF Float.isFinite x y pair dmin p axis)
+    | _ => return "bad-op"
   | .sym "tolerance" :: args => Id.run do
     let some x := (kw? args "x").bind Val.asFloat? | return "bad-op"
     let some tol := (kw? args "tol").bind Val.asFloat? | return "bad-op"
